@@ -262,7 +262,7 @@ PROPS = {
                 "to a live or unused id, get-client-info and invitation addressed to an id, and fast-forward of the production client registry "
                 "by {1,100,30000,65000,65530,65536,70000} add/delete cycles, and idling for {50 s, 295 s, 311 s, 10 min} of fake time with the production "
                 "keep-alive loop running (users become away after 300 s and wake up with their next request: both must reach every roster); TestC13Wrap keeps two users connected, moves the counter to 10 before "
-                "the 16-bit wrap and continues; TestC13SchedPoint owns one schedule point: an observer fetches the user list on the server's goroutine immediately "
+                "the 16-bit wrap and continues; TestC13AwayAtLeave: 1-4 users are kicked or close at the very instant the idle tick marks them away (timers aligned in fake time); TestC13SchedPoint owns one schedule point: an observer fetches the user list on the server's goroutine immediately "
                 "before or after the registry Add/Delete of a user who joins, closes or is kicked (1-3 other users, observer with or without an earlier "
                 "list), and must converge once everything settled; every client folds the 301/302 notifications it receives into the user list it fetched; after "
                 "every step: registry size == live connections, ids distinct, each folded roster == fresh user list restricted to completed "
@@ -273,11 +273,13 @@ PROPS = {
         "quick": {"runs": [{"test": "^TestC13$", "shards": 12, "checks": 60, "timeout": 900},
                            {"test": "^TestC13Wrap$", "shards": 3, "checks": 25, "timeout": 900},
                            {"test": "^TestC13AwayReorder$", "shards": 1, "checks": 40, "timeout": 900},
-                           {"test": "^TestC13SchedPoint$", "shards": 1, "checks": 150, "timeout": 900}]},
+                           {"test": "^TestC13SchedPoint$", "shards": 1, "checks": 150, "timeout": 900},
+                           {"test": "^TestC13AwayAtLeave$", "shards": 1, "checks": 100, "timeout": 900}]},
         "thorough": {"runs": [{"test": "^TestC13$", "shards": 11, "checks": 2000, "timeout": 3400},
                               {"test": "^TestC13Wrap$", "shards": 3, "checks": 500, "timeout": 3400},
                               {"test": "^TestC13AwayReorder$", "shards": 1, "checks": 1500, "timeout": 3400},
-                              {"test": "^TestC13SchedPoint$", "shards": 1, "checks": 5000, "timeout": 3400}]},
+                              {"test": "^TestC13SchedPoint$", "shards": 1, "checks": 5000, "timeout": 3400},
+                              {"test": "^TestC13AwayAtLeave$", "shards": 1, "checks": 4000, "timeout": 3400}]},
     },
     "C17": {
         "title": "Disconnects and bans are enforced at the door",
